@@ -1,6 +1,6 @@
 import VotelibModel.Core
-import VotelibModel.Py
 import VotelibModel.Gen.Divisor
 import VotelibModel.Gen.Quota
 import VotelibModel.Gen.RankScore
+import VotelibModel.Py
 import VotelibModel.Simple
